@@ -1,6 +1,7 @@
 """C13 Cube picking"""
 import epick
 import eunits
+import epost
 
 LEVEL = "E-TABLE.pick + E-UNITS"
 
@@ -18,5 +19,8 @@ def run(ctx):
                 "decides; the literal set handed to the recursion is the remainder (never the false child; literals "
                 "below skipped negative literals are kept); the result puts the sub-cube on the branch taken.")
     n = epick.run(ctx, F)
+    ctx.explain("E-POST.mapusers: pick_cube_uniform weights its choices with model counts; the count cache's map (whose keys are "
+                "kind-specific: BCDDs fold the complement tag in) is touched only by SatCountCache and sat_count_edge::inner.")
+    epost.check_count_cache_users(ctx, F)
     ctx.floor("E-TABLE.pick", "abstract situations of the cube-picking step", n, 80)
     ctx.not_decided = "that the result implies the function, don't-care minimality, statistical uniformity"
